@@ -1,4 +1,5 @@
 """C02 — the validation verdict equals the declared constraints, no more, no less."""
+from ..common import safe_repr
 from .. import conforms, runner, valcases, valcorr
 
 MODULE = "D42.Props.C02All"
@@ -22,7 +23,7 @@ EVIDENCE = dict(
 
 def oracle(ctx, cases):
     for c in cases:
-        ctx.case((repr(c.schema), repr(c.value)), c.tag != "witness")
+        ctx.case((safe_repr(c.schema), safe_repr(c.value)), c.tag != "witness")
         ctx.count("tag:" + c.tag)
         if c.real_exc is not None:
             continue   # C08's business
@@ -35,8 +36,8 @@ def oracle(ctx, cases):
         ctx.count("conforming" if want else "nonconforming")
         if want != got:
             ctx.violation("validate accepts a non-conforming value" if got else "validate rejects a conforming value",
-                          schema=repr(c.schema), value=repr(c.value),
-                          errors=[repr(e) for e in c.real], py_schema=c.schema, py_value=c.value)
+                          schema=safe_repr(c.schema), value=safe_repr(c.value),
+                          errors=[safe_repr(e) for e in c.real], py_schema=c.schema, py_value=c.value)
 
 
 def run(ctx):
@@ -53,15 +54,19 @@ def run(ctx):
     from .. import hostile
     cases += hostile.defaulting_dict_cases()
     cases += hostile.sentinel_value_cases()
+    cases += hostile.same_name_alias_cases()
+    cases += hostile.shared_object_cases()
+    cases += hostile.special_key_cases()
     for c in cases:
         valcorr.run_real(c)
         valcorr.prepare(c)
     ctx.count("skipped_unencodable", sum(1 for c in cases if c.skip))
     oracle(ctx, cases)
+    hostile.alias_target_probe(ctx)
     dis = valcorr.compare(cases, ctx, view="verdict")
     for c, detail in dis[:10]:
         ctx.breakage("correspondence", "validator verdict differs between model and code",
-                     schema=repr(c.schema), value=repr(c.value), detail=detail, request=c.req)
+                     schema=safe_repr(c.schema), value=safe_repr(c.value), detail=detail, request=c.req)
     ctx.cov["corr_disagreements"] = len(dis)
     if not ctx.quick():
         # thorough: the whole small scope (every schema of a small grammar to depth 2 x a fixed value universe), with the
@@ -69,7 +74,7 @@ def run(ctx):
         from .. import smallscope
         smallscope.validate_scope(ctx, view="verdict", oracle=oracle, what="validator verdict")
     for c in cases[:400:67]:
-        ctx.sample({"schema": repr(c.schema), "value": repr(c.value), "tag": c.tag,
+        ctx.sample({"schema": safe_repr(c.schema), "value": safe_repr(c.value), "tag": c.tag,
                     "errors": [type(e).__name__ for e in (c.real or [])]})
 
 
